@@ -5,7 +5,7 @@ from contracts.common import *
 from pyvc.unit import Unit, Contract, LoopInv
 from pyvc.seq import Chunk, list_term, val_term, RecFn, Val, v_snoc, v_nil
 from pyvc.models import LazySeq
-from pyvc.values import Opq, I
+from pyvc.values import Opq, I, lit, str_term
 
 IO = "io_drawer."
 
@@ -177,7 +177,192 @@ def spec_hlog_native(data, path):
     return lines
 
 
-HLOG_UNITS = [ParseHlog]
+# ------------------------------------------------------------------ C16: the reader of the field table, for any file
+def native_text_file_input(S, key, gen):
+    """concrete companion input: the text of a table file (generated, or taken from a replayed log)"""
+    rng = getattr(S, 'rng', None)
+    if rng is None:
+        txt = S.values.get('_text', '')
+    else:
+        txt = gen(rng)
+        S.log['_text'] = txt
+    return {key: "table.txt", '_text': txt}
+
+
+def with_text_file(text, fn):
+    import tempfile, os, shutil
+    d = tempfile.mkdtemp(prefix="pyvc_tbl_")
+    try:
+        p = os.path.join(d, "table.txt")
+        with open(p, "w") as f:
+            f.write(text)
+        return fn(p)
+    finally:
+        shutil.rmtree(d, ignore_errors=True)
+
+
+def gen_lines(rng, starts, ends, entry, junk):
+    """a file of 0..3 tables, with entries also outside tables, junk lines anywhere, sometimes no end line"""
+    out = []
+    for _ in range(rng.randrange(0, 4)):
+        for _ in range(rng.randrange(0, 3)):
+            out.append(rng.choice(junk + [entry(rng)]))
+        out.append(rng.choice(starts))
+        for _ in range(rng.randrange(0, 5)):
+            out.append(entry(rng) if rng.random() < 0.8 else rng.choice(junk + starts))
+        if rng.random() < 0.85:
+            out.append(rng.choice(ends))
+    for _ in range(rng.randrange(0, 3)):
+        out.append(rng.choice(junk + [entry(rng)]))
+    txt = ''.join(l + "\n" for l in out)
+    if out and rng.random() < 0.2:
+        txt = txt[:-1]              # last line without a newline
+    return txt
+
+
+def gen_hlog_text(rng):
+    def entry(rng):
+        nm = ''.join(rng.choice("abcXYZ_019 -.") for _ in range(rng.randrange(1, 10)))
+        return rng.choice(['    { %d, "%s" },', '{%d,"%s"}', ' {  %d , "%s" } , ']) % (rng.choice([1, 2, 1, 2, 3]), nm)
+    return gen_lines(rng, ["static struct mex_hlog_field mex_hlog_fields[N] =", "struct mex_hlog_field mex_hlog_fields[] = {",
+                           "  static  struct  mex_hlog_field   mex_hlog_fields[3]={ "],
+                     ["};", "  } ; "], entry, ["", "// comment", "{", "int x = 3;", '{ 1, "broken', "#define N 4"])
+
+
+class LinesEnv:
+    """a text file is an arbitrary, symbolic number of arbitrary (opaque) lines"""
+
+    def open_read(self, it, path, mode):
+        from pyvc.models import Handle
+        h = Handle(path, mode)
+        n = ufun('file_nlines', PyStr, z3.IntSort())(str_term(path))
+        it.ctx.assume(n >= 0)
+        lf = ufun('file_line', PyStr, z3.IntSort(), PyStr)
+        h.content = LazySeq(n, lambda j: mkstr([Opq(lf(str_term(path), zint(j)))]), 'file_lines')
+        return h
+
+
+def file_line(path, j):
+    return mkstr([Opq(ufun('file_line', PyStr, z3.IntSort(), PyStr)(str_term(path), zint(j)))])
+
+
+def re_pred(pat, line):
+    """the abstract 'pattern fully matches the line' predicate the engine uses for general patterns"""
+    return ufun('re_matches', PyStr, PyStr, z3.BoolSort())(lit("fullmatch/%d/%s" % (pat.flags, pat.pattern)), str_term(line))
+
+
+def re_grp(pat, g, line):
+    return ufun('re_group', PyStr, z3.IntSort(), PyStr, PyStr)(lit("fullmatch/%d/%s" % (pat.flags, pat.pattern)), I(g), str_term(line))
+
+
+def re_grp_char(pat, g, line):
+    return ufun('re_group_char', PyStr, z3.IntSort(), PyStr, z3.IntSort())(lit("fullmatch/%d/%s" % (pat.flags, pat.pattern)), I(g), str_term(line))
+
+
+class HlogFieldsInv(LoopInv):
+    """fields == F(k), in_data_structure == S(k) where, for line k (s/e/f = it matches the start / end / field pattern):
+       S(k+1) = s or (not e and S(k));  F(k+1) = F(k) ++ [(name, size)] if not s and not e and S(k) and f, else F(k)"""
+    func = IO + "hlog.get_hlog_fields"
+    loop = 0
+    modifies_locals = ('line', 'in_data_structure', 'match', 'properties', 'size', 'name', 'field')
+
+    def fns(self, ctx):
+        if not hasattr(ctx, 'hf_fns'):
+            ctx.hf_fns = (RecFn('hf_in', z3.BoolSort()), RecFn('hf_fields', Val))
+        return ctx.hf_fns
+
+    def heap_targets(self, it, fr):
+        return [fr.locals['fields']]
+
+    def step_defs(self, it, fr, k):
+        import io_drawer.hlog as H
+        ctx = it.ctx
+        S, F = self.fns(ctx)
+        line = file_line(fr.locals['header_file_path'], k)
+        s, e, f = re_pred(H.HLOG_START_RE, line), re_pred(H.HLOG_END_RE, line), re_pred(H.HLOG_FIELD_RE, line)
+        c = re_grp_char(H.HLOG_FIELD_RE, 1, line)
+        item = val_term((mkstr([Opq(re_grp(H.HLOG_FIELD_RE, 2, line))]), z3.If(c == 49, I(1), I(2))))
+        S.unfold(ctx, k, lambda prev, kk: z3.Or(s, z3.And(z3.Not(e), prev)))
+        F.unfold(ctx, k, lambda prev, kk: z3.If(z3.And(z3.Not(s), z3.Not(e), S.at(k), f), v_snoc(prev, item), prev))
+
+    def entry_defs(self, it, fr):
+        ctx = it.ctx
+        S, F = self.fns(ctx)
+        if not getattr(ctx, 'hf_base', False):
+            ctx.hf_base = True
+            S.define_base(ctx, z3.BoolVal(False))
+            F.define_base(ctx, v_nil())
+
+    def havoc(self, it, fr, i):
+        ctx = it.ctx
+        self.entry_defs(it, fr)
+        fr.locals['in_data_structure'] = ctx.fresh('hf_in_now', 'bool')
+        fr.locals['fields'][:] = [Chunk(ctx.fresh('hf_fields_so_far', Val))]
+
+    def inv(self, it, fr, i):
+        ctx = it.ctx
+        self.entry_defs(it, fr)
+        S, F = self.fns(ctx)
+        if not isinstance(i, int) or i > 0:
+            self.step_defs(it, fr, simp(zint(i) - 1))
+        return And(Iff(fr.locals['in_data_structure'], S.at(i)), list_term(fr.locals['fields']) == F.at(i))
+
+
+class GetHlogFields(Unit):
+    """the reader of the history-log field table, for a header file of any number of arbitrary lines: the result is the fold
+    of the grammar's state machine over the lines, in file order; each field is (text of group 2, 1|2 from group 1)"""
+    prop = "C16"
+    name = "get_hlog_fields"
+    target = IO + "hlog.get_hlog_fields"
+    contracts = []
+    invariants = [HlogFieldsInv]
+    min_obligations = 4
+
+    def inputs(self, S):
+        if S.symbolic:
+            return dict(header_file_path="fields.h")
+        return native_text_file_input(S, 'header_file_path', gen_hlog_text)
+
+    env = LinesEnv
+
+    def call_native(self, inp):
+        from io_drawer.hlog import get_hlog_fields
+        return with_text_file(inp['_text'], get_hlog_fields)
+
+    def check(self, P, inp, old, out):
+        P.prove(out.returned, "returns for every file")
+        if not out.returned:
+            return
+        if not P.symbolic:
+            import io_drawer.hlog as H
+            want, ins = [], False
+            for line in inp['_text'].splitlines(True):
+                if H.HLOG_START_RE.fullmatch(line):
+                    ins = True
+                elif H.HLOG_END_RE.fullmatch(line):
+                    ins = False
+                elif ins and H.HLOG_FIELD_RE.fullmatch(line):
+                    g = H.HLOG_FIELD_RE.fullmatch(line).groups()
+                    want.append((g[1], 1 if g[0] == '1' else 2))
+            P.prove([tuple(f) for f in out.value] == want,
+                    "result == the declared fields, in file order (fold of the table grammar over the lines)")
+            return
+        ctx = P.ctx
+        inv = [v for v in ctx.invariants.values()][0]
+        S_, F = inv.fns(ctx)
+        m = ctx.ghost.get(HlogFieldsInv.func + '#loop0.exit_index')
+        how = ctx.ghost.get(HlogFieldsInv.func + '#loop0.exit')
+        P.prove(m is not None and how == 'exhausted', "every line of the file is read")
+        if m is None:
+            return
+        n = ufun('file_nlines', PyStr, z3.IntSort())(str_term(inp['header_file_path']))
+        P.prove(Eq(m, n), "up to the last line")
+        P.prove(list_term(list(out.value)) == F.at(m), "result == the declared fields, in file order (fold of the table grammar over the lines)")
+        P.prove([e for e in ctx.fs if e[0] != 'open_r'] == [], "the file is only read")
+        P.prove(len([e for e in ctx.fs if e[0] == 'open_r']) == 1, "and it is read at this call (no remembered table)")
+
+
+HLOG_UNITS = [ParseHlog, GetHlogFields]
 UNITS = list(HLOG_UNITS)
 
 
